@@ -319,7 +319,7 @@ def ascending_index_deletion(ctx, f):
         it = st.iter
         if isinstance(it, ast.Call) and fn_name(it) == "reversed":
             continue
-        if isinstance(it, ast.Call) and fn_name(it) == "sorted" and U(kwarg(it, "reverse")) == "True":
+        if isinstance(it, ast.Call) and fn_name(it) == "sorted" and kwarg(it, "reverse") is not None and U(kwarg(it, "reverse")) == "True":
             continue
         src = deref(f, it)
         seqs = set()
@@ -332,7 +332,7 @@ def ascending_index_deletion(ctx, f):
                 seqs.add(base(y.args[-1].args[0]))
         if isinstance(src, ast.Call) and fn_name(src) in ("reversed",):
             continue
-        if isinstance(src, ast.Call) and fn_name(src) == "sorted" and U(kwarg(src, "reverse")) == "True":
+        if isinstance(src, ast.Call) and fn_name(src) == "sorted" and kwarg(src, "reverse") is not None and U(kwarg(src, "reverse")) == "True":
             continue
         if isinstance(src, ast.Subscript) and isinstance(src.slice, ast.Slice) and src.slice.step is not None and U(src.slice.step) == "-1":
             continue
